@@ -115,6 +115,9 @@ RAISERS = ['raise_value', 'raise_key', 'raise_type', 'raise_zero', 'raise_attr',
 METHODS = {'str': ['upper', 'count', 'index', 'startswith'], 'list': ['count', 'index', 'pop', 'append'],
            'tuple': ['count', 'index'], 'dict': ['get', 'pop', 'setdefault']}
 MUTATORS = ('pop', 'append', 'setdefault')
+# calls that change the target: generated only once the Lean model threads the target's state
+# through the replay (Model/C02Prim.lean `callMethod`); until then the stream stays within the model
+STATEFUL = False
 
 # ---------------------------------------------------------------- PV codec
 
@@ -475,14 +478,14 @@ class Gen:
         opts = []
         if type(cur) is dict:
             if cur:
-                opts += ['key'] * 6 + ['dpop']
-            opts += ['get', 'dor', 'dsetdefault']
+                opts += ['key'] * 6 + (['dpop'] if STATEFUL else [])
+            opts += ['get', 'dor'] + (['dsetdefault'] if STATEFUL else [])
         elif type(cur) in (list, tuple):
             if cur:
                 opts += ['idx'] * 4 + ['scount', 'sindex']
-                if type(cur) is list:
+                if type(cur) is list and STATEFUL:
                     opts += ['lpop'] * 2
-            if type(cur) is list:
+            if type(cur) is list and STATEFUL:
                 opts += ['lappend']
             opts += ['slice'] * 2 + ['sadd', 'smul']
         elif type(cur) is str:
@@ -882,7 +885,8 @@ def generate(rng, tier, scale, **focus):
         yield {'target': tj, 'expr': {'T': steps}}
     for i in range(n // 12):
         yield twin_templates(rng)
-        yield stateful_templates(rng)
+        if STATEFUL:
+            yield stateful_templates(rng)
     if tier == 'thorough' and not focus:
         yield from exhaustive()
 
